@@ -305,12 +305,22 @@ func decorateForHelp(r *rand.Rand, t *Tree) {
 		for _, g := range c.Extra {
 			walkG(g)
 		}
+		if c.Style == "root" {
+			c.Desc = ""
+			if chance(r, 0.3) {
+				c.Desc = pick(r, []string{"an application", "does `it' all", "naïve 世界"})
+			}
+		}
 		if c.Style != "root" {
 			c.Desc = ""
 			if chance(r, 0.7) {
 				c.Desc = "cd" + itoa(markerN) + " " + pick(r, helpWords)
 				markerN++
 			}
+		}
+		c.LongDesc = ""
+		if chance(r, 0.3) {
+			c.LongDesc = pick(r, []string{"The " + c.Name + " command does `things' to the named items.", "long text " + helpDesc(r, "ld"), "a `bold' word and a lone ` quote", "back\\slash and\nsecond line", "short"})
 		}
 		for _, a := range c.Args {
 			a.Desc = ""
